@@ -143,6 +143,29 @@ func runC17(c *an.Ctx) {
 			c.Add(okT, "R2", "Coalesce:records-kind", in, "the pending entry records the event's kind", "field provenance")
 		})
 		c.Floor("R2", "pending-state updates in Coalesce", n, 1)
+		// every member of the event overwrites its pending entry unconditionally
+		// (a skipped overwrite would leave an older pending event in place)
+		var header, body *ssa.BasicBlock
+		for _, b := range co.Blocks {
+			if b.Comment == "rangeindex.loop" && header == nil {
+				header = b
+			}
+			if b.Comment == "rangeindex.body" && body == nil {
+				body = b
+			}
+		}
+		if header == nil || body == nil {
+			c.Anchor("R2", "range loop over the event's members in Coalesce")
+		} else {
+			isUpd := func(in ssa.Instruction) bool {
+				mu, ok := in.(*ssa.MapUpdate)
+				return ok && an.Path(mu.Map) == "$0.latestEvents"
+			}
+			r := an.ReachFromBlock(co, body, &an.Cut{Instrs: isUpd}, func(in ssa.Instruction) bool {
+				return in.Block() == header || an.IsExit(in)
+			})
+			c.Add(r == nil, "R2", "Coalesce:latest-always-overwrites", co, "each member of an incoming event replaces that member's pending entry on every path (the pending entry is always the latest event)", "must-pass within the loop body")
+		}
 	}
 	if fl != nil {
 		rng := "next(range($0.latestEvents))"
